@@ -12,6 +12,8 @@ H = {
     'mask': R.Harness('mask', strs.scen_mask, strs.load_sym, strs.load_real),
     'mask-multi': R.Harness('mask-multi', strs.scen_mask_multi,
                             strs.load_sym, strs.load_real),
+    'mask-mixed': R.Harness('mask-mixed', strs.scen_mask_mixed,
+                            strs.load_sym, strs.load_real),
     'nokey': R.Harness('nokey', strs.scen_nokey, strs.load_sym,
                        strs.load_real),
 }
@@ -37,6 +39,12 @@ def build_jobs(tier, seed):
         jobs.append(J(H['mask-multi'], dict(key='password', rendering=r[0])))
         jobs.append(J(H['mask'], dict(key='secret', rendering=r[0], n=1,
                                       mask='X')))
+    mixed = ['dq-eq', 'bare-eq', 'xml', 'key-sq', 'cmd-flag', 'json-dq']
+    for a in mixed:
+        for b in mixed:
+            if a != b:
+                jobs.append(J(H['mask-mixed'], dict(
+                    key='password', renderings=[a, b])))
     jobs.append(J(H['nokey'], dict(n=5 if tier == 'quick' else 6),
                   split_depth=8))
     if tier == 'thorough':
